@@ -81,6 +81,12 @@ def _invoke_fn(klong, fn, args):
     """
     if callable(fn) and not isinstance(fn, (KGSym, KGLambda, KGFn)):
         return fn(*args)
+    if isinstance(fn, KGFn) and not isinstance(fn, KGCall) and fn.args is not None \
+            and any(a is not None for a in (fn.args if isinstance(fn.args, list) else [fn.args])):
+        # a projection ({x*y}(;3.0)): calling the function object lets the interpreter merge
+        # the fixed arguments; unwrapping it to its body would drop them (y would then be
+        # looked up as a global, or stay a bare symbol)
+        return klong.call(KGCall(fn, list(args), len(args)))
     inner = fn.a if isinstance(fn, KGFn) else fn
     return klong.call(KGCall(inner, list(args), len(args)))
 
